@@ -57,12 +57,36 @@ Delivered(keys, lines, ms, k) ==
     /\ Len(lines) = k * Len(ms)
     /\ \A i \in 1..Len(ms) : \A j \in 1..k : LineOk(keys, lines[(i - 1) * k + j], ms[i])
 
+\* The file keys (max_file_size, max_file_count, rotate_on_startup, rotate_daily, compress_old_files) reach the
+\* rotating sink: the scenario plants a log file of an earlier day (`old` lines, modification time two days back) and
+\* the directory is read afterwards - out.rot = rotated files in (date, index) order, each [gz, old (named after the
+\* planted file's day), lines, bytes], out.file / out.fileBytes = the active file.
+FileObligations(keys, ms, out) ==
+    LET fo == keys.fopt
+        all == Flat([i \in 1..Len(out.rot) |-> out.rot[i].lines]) \o out.file
+        want == Len(fo.old) + Len(ms)
+        k == want - Len(all)                                       \* lines that retention removed (the oldest ones)
+        rotating == fo.N # 1                                       \* a count limit of 1 means "never rotate"
+        startRot == rotating /\ fo.old # <<>> /\ (fo.startup \/ fo.daily)   \* the planted file is from an earlier day
+    IN  /\ k >= 0 /\ (k > 0 => fo.N >= 2)
+        /\ \A i \in 1..Len(all) :
+               LET j == k + i IN
+               IF j <= Len(fo.old) THEN all[i] = fo.old[j] ELSE LineOk(keys, all[i], ms[j - Len(fo.old)])
+        /\ startRot => (/\ Len(out.file) <= Len(ms)                \* nothing old is left in the active file
+                        /\ (k < Len(fo.old)) => (out.rot # <<>> /\ out.rot[1].old))   \* and it went to a file named after its day
+        /\ (~startRot /\ (fo.L = 0 \/ ~rotating)) => out.rot = <<>>
+        /\ fo.N >= 2 => Len(out.rot) <= fo.N - 1
+        /\ \A i \in 1..Len(out.rot) : out.rot[i].gz = fo.gz
+        /\ (fo.L > 0 /\ rotating) =>
+               /\ \A i \in 1..Len(out.rot) : out.rot[i].bytes <= fo.L \/ Len(out.rot[i].lines) = 1
+               /\ out.fileBytes <= fo.L \/ Len(out.file) <= 1
+
 IniObligations(keys, msgs, out) ==
     LET ms == Through(keys, msgs)
         nerr == (IF keys.stderr THEN 1 ELSE 0) + (IF keys.platform THEN 1 ELSE 0)
     IN  /\ Delivered(keys, out.stdout, ms, IF keys.stdout THEN 1 ELSE 0)
         /\ Delivered(keys, out.stderr, ms, nerr)
-        /\ Delivered(keys, out.file, ms, IF keys.file THEN 1 ELSE 0)
+        /\ IF keys.file THEN FileObligations(keys, ms, out) ELSE out.file = <<>>
         /\ out.fileExists = keys.file
 
 \* ESC [ digits-and-semicolons m
